@@ -527,6 +527,46 @@ func c05observe[V any](im c05impl[V], m *ordered.Map[string, V], model *c05model
 	return diffs, nobs
 }
 
+// c05goTest renders a history as a plain unit test for package ordered_test.
+func c05goTest(impl, ctor string, h []c05op, note string) string {
+	val := func(v int) string {
+		if impl == "MapSS" {
+			return fmt.Sprintf("%q", fmt.Sprint(v))
+		}
+		return fmt.Sprint(v)
+	}
+	typ := "any"
+	if impl == "MapSS" {
+		typ = "string"
+	}
+	var b strings.Builder
+	fmt.Fprintf(&b, "// place in: ordered/ (package ordered_test)\nfunc TestReplayC05(t *testing.T) {\n")
+	switch ctor {
+	case "zero":
+		fmt.Fprintf(&b, "\tm := new(ordered.Map[string, %s])\n", typ)
+	case "nil":
+		fmt.Fprintf(&b, "\tvar m *ordered.Map[string, %s]\n", typ)
+	default:
+		fmt.Fprintf(&b, "\tm := ordered.NewMap[string, %s](0)\n", typ)
+	}
+	for _, o := range h {
+		switch o.Kind {
+		case "set":
+			fmt.Fprintf(&b, "\tm.Set(%q, %s)\n", o.A, val(o.V))
+		case "replace":
+			fmt.Fprintf(&b, "\tm.Replace(%q, %q, %s)\n", o.A, o.B, val(o.V))
+		case "delete":
+			fmt.Fprintf(&b, "\tm.Delete(%q)\n", o.A)
+		case "rangerename":
+			fmt.Fprintf(&b, "\tm.Range(func(k string, v %s) error { m.Replace(k, rename(k) /* %s */, v); return nil })\n", typ, o.A)
+		case "rebuild":
+			fmt.Fprintf(&b, "\t// rebuild: m = ordered.MapFromItems(<current items in order>...)\n")
+		}
+	}
+	fmt.Fprintf(&b, "\t// %s\n\tb, _ := json.Marshal(m)\n\tt.Logf(\"len=%%d json=%%s\", m.Len(), b)\n}\n", strings.ReplaceAll(note, "\n", " "))
+	return b.String()
+}
+
 func c05histString(ctor string, h []c05op) string {
 	parts := []string{ctor}
 	for _, o := range h {
@@ -686,6 +726,7 @@ func c05bfs[V any](w *report.W, im c05impl[V], ctor string, ops []c05op, depth i
 						bad[i] = true
 						w.Violate(report.Violation{Kind: df.kind, Case: im.name + ": " + c05histString(ctor, r.hist),
 							Detail: df.detail + " | model " + model.String() + " | impl " + snap.State(&m), Size: len(r.hist),
+							GoTest: c05goTest(im.name, ctor, r.hist, df.detail+"; model "+model.String()),
 							Replay: c05replayPayload{Impl: im.name, Ctor: ctor, Hist: r.hist}})
 					}
 				}
